@@ -1,0 +1,5 @@
+// Package verifhook provides named hook points used by external verification
+// harnesses to observe and steer goroutine schedules inside Watermill.
+//
+// Without the `verif` build tag, At is an empty function and costs nothing.
+package verifhook
